@@ -75,6 +75,8 @@ def gen_case(seed, tier, idx):
         dt = (T - t0) * rs.choice([0.7, 1.0, 3.0])
     return {"solver": solver, "sde": spec, "dtype": dtype, "t0": fx(t0), "dt": fx(dt), "T": fx(T), "n_nominal": n,
             "ts_dtype": rs.choice(["same", "same", "same", "float64", "float32"]),
+            # options that only matter for adaptive stepping, passed to a fixed-step solve (they must not change it)
+            "adaptive_only": rs.choice([None, None, {"dt_min": 0.2}, {"dt_min": 10 * dt, "rtol": 1e-2}, {"atol": 1e-9, "rtol": 0.0}]),
             "bm": "real" if rs.random() < 0.2 else "stub", "bm_seed": rs.randrange(1 << 30), "variants": variants,
             "fault_rate": bm.gen_fault_rate(st.get("faults")), "fault_seed": rs.randrange(1 << 30)}
 
@@ -167,7 +169,7 @@ class Runner:
         # a list is converted to the state's dtype by the library, so the list form is only comparable when the time
         # dtype is the state's dtype
         ts = list(times) if (as_list and self.tts == self.tdt) else torch.tensor(times, dtype=self.tts)
-        kw = {}
+        kw = dict(case.get("adaptive_only") or {})
         if case["solver"]["options"]:
             kw["options"] = dict(case["solver"]["options"])
         try:
@@ -338,7 +340,7 @@ def simplify(case):
             c = copy.deepcopy(case)
             c["variants"][vi]["entry"] = "sdeint"
             yield c
-    for key, val in (("bm", "stub"), ("dtype", "float64"), ("fault_rate", 0.0), ("ts_dtype", "same")):
+    for key, val in (("bm", "stub"), ("dtype", "float64"), ("fault_rate", 0.0), ("ts_dtype", "same"), ("adaptive_only", None)):
         if case.get(key) != val:
             c = copy.deepcopy(case)
             c[key] = val
